@@ -117,9 +117,11 @@ static int shared( bool verbose )
     return 0;
 }
 // an answered PHY request does not end the link
-static int answered( bool verbose )
+using ll_no_2mbit_t = unconnected_base_t< test::small_temperature_service, test::radio, bluetoe::link_layer::buffer_sizes< 200u, 200u > >;
+template < class LL >
+static int answered( bool verbose, const char* radio )
 {
-    ll_t ll;
+    LL ll;
     ll.respond_to( 37, valid_connection_request_pdu );
     ll.ll_empty_pdus( 3 );
     ll.ll_function_call( [&]{ ll.phy_update_request_to_2mbit(); } );
@@ -130,8 +132,8 @@ static int answered( bool verbose )
     ll.run( 4 );
     std::size_t with_traffic = 0;
     for ( const auto& ev : ll.connection_events() ) if ( !ev.received_data.empty() ) ++with_traffic;
-    if ( verbose ) std::printf( "PHY request answered with LL_PHY_UPDATE_IND( unchanged ): link up for %.1f s\n", with_traffic * 0.03 );
-    if ( with_traffic * 0.03 < 55.0 ) { std::printf( "REPRODUCED: PHY request answered by the central, the link was ended after %.1f s anyway\n", with_traffic * 0.03 ); return 1; }
+    if ( verbose ) std::printf( "PHY request answered with LL_PHY_UPDATE_IND( unchanged ), %s: link up for %.1f s\n", radio, with_traffic * 0.03 );
+    if ( with_traffic * 0.03 < 55.0 ) { std::printf( "REPRODUCED: PHY request answered by the central (%s), the link was ended after %.1f s anyway\n", radio, with_traffic * 0.03 ); return 1; }
     return 0;
 }
 int main( int argc, char** argv )
@@ -145,7 +147,8 @@ int main( int argc, char** argv )
     rc |= foreign( true );
     rc |= foreign( true, 1 );
     rc |= foreign( true, 2 );
-    rc |= answered( true );
+    rc |= answered< ll_t >( true, "radio with 2 MBit support" );
+    rc |= answered< ll_no_2mbit_t >( true, "radio without 2 MBit support (the answer itself gets LL_UNKNOWN_RSP)" );
     rc |= shared( true );
     if ( !rc ) std::printf( "not reproduced\n" );
     return rc;
